@@ -8,9 +8,11 @@ pub mod c05;
 pub mod c06;
 pub mod c08;
 pub mod c09;
+pub mod c10;
 pub mod c17;
 pub mod c18;
 pub mod c27;
+pub mod c29;
 pub mod crash;
 
 pub struct Entry {
@@ -28,12 +30,17 @@ pub const REGISTRY: &[Entry] = &[
     Entry { id: "C06", level: "exploration", run: c06::run },
     Entry { id: "C08", level: "fault_enumeration", run: c08::run },
     Entry { id: "C09", level: "exploration", run: c09::run },
+    Entry { id: "C10", level: "exploration", run: c10::run },
     Entry { id: "C17", level: "fault_enumeration", run: c17::run },
     Entry { id: "C18", level: "exploration", run: c18::run },
     Entry { id: "C27", level: "exploration", run: c27::run },
+    Entry { id: "C29", level: "exploration", run: c29::run },
 ];
 
 /// Entry point of child worker processes (`check --worker <kind> ...`).
-pub fn worker_main(_args: &[String]) -> i32 {
-    2
+pub fn worker_main(args: &[String]) -> i32 {
+    match args.first().map(|s| s.as_str()) {
+        Some("open-hold") => c10::worker(&args[1..]),
+        _ => 2,
+    }
 }
